@@ -38,8 +38,11 @@ def c06(tier):
 def c17(tier):
     def own(d):
         return d["ev"] == "is_clean"
-    return PE.generic("C17", tier, profiles=["marker", "restart"], own=own, n_quick=500, n_thorough=4000,
-                      extra_assumptions=["reopen happens at delays 0, 1 and 20 ms after the last call, in the same and in a new process"])
+    return PE.generic("C17", tier, profiles=["marker", "restart", "latep"], own=own, n_quick=540, n_thorough=4000,
+                      extra_assumptions=["reopen happens at delays 0, 1 and 20 ms after the last call, in the same and in a new process",
+                                         "profile latep holds the marker persister thread of an instance at the cfg gate tc_before_persist "
+                                         "across a clean shutdown and a successor instance (the schedule behind repaired defect "
+                                         "'late persister of a dropped instance')"])
 
 
 def _c12_corpus(n, seed, cfgs):
